@@ -3,7 +3,7 @@ import rdflib
 from rdflib import BNode, Literal, URIRef
 from rdflib.namespace import OWL, RDF, RDFS
 
-from .. import enc, framework as F, shapes as S, evalcheck as EC
+from .. import enc, framework as F, shapes as S, evalcheck as EC, closurecheck as CC
 from ..enc import EX, SH
 
 PROP = "C02"
@@ -121,7 +121,9 @@ def main(tier, seed, replay=None):
 
     return EC.standard_main(
         PROP, ["Props/C02.v"], tier, seed, cases,
-        rule="case = 1-4 shapes with 0-3 declarations of each of the five target kinds (implicit class targets through rdfs:Class, owl:Class and one- and two-step metaclasses; explicitly or implicitly typed shapes) x data with subclass chains, cycles, diamonds, literal and blank-node objects, absent target nodes; each shape carries sh:in () so sh:focusNode enumerates the focus set; validate() compared with the model end to end and Shape.focus_nodes compared with the model's focus_nodes directly",
+        rule="case = 1-4 shapes with 0-3 declarations of each of the five target kinds (implicit class targets through rdfs:Class, owl:Class and one- and two-step metaclasses; explicitly or implicitly typed shapes) x data with subclass chains, cycles, diamonds, literal and blank-node objects, absent target nodes; each shape carries sh:in () so sh:focusNode enumerates the focus set; validate() compared with the model end to end and Shape.focus_nodes compared with the model's focus_nodes directly; Tie A for closure.py: transitive_subjects / transitive_objects on random chains (up to 1500 long in the thorough tier), diamonds, cycles and random graphs = interpreter run of the generated programs (exact list, rdflib's neighbour order) = independent reachability = the same triples in 3 other insertion orders",
         what="focus nodes differ from the target semantics (model, Props.C02)",
-        metamorphic=meta_and_direct,
+        metamorphic=meta_and_direct, translators=["t4"],
+        extra_checks=lambda: CC.run(F.rng_for(seed, PROP + "/closure"), 120 if tier == "quick" else 1500, big=tier != "quick"),
+        extra_assumptions=["translator/t4.py (fail-closed translation of pyshacl/rdfutil/closure.py into the work-list language of coq/Closure/Worklist.v; rdflib's Graph.subjects / Graph.objects are taken to enumerate exactly the matching triples' terms, each once, in some order)"],
     )
